@@ -1,11 +1,240 @@
-//! Rune transaction generator (etchings, mints, edicts, cenotaphs).
+//! Rune transaction generator: etchings (named with a matured / immature /
+//! non-taproot / missing commitment, below or above the block's minimum,
+//! reserved, duplicate; unnamed; in cenotaphs), mints around every window
+//! edge and the cap, edict lists of every kind, pointers, every flaw, and
+//! plain transfers of runic outputs (also into OP_RETURN and fees).
 
-use crate::{blockgen::{Avail, Gen}, model::Model, rng::Rng};
-use bitcoin::Transaction;
+use crate::{
+  blockgen::{Avail, Gen},
+  model::Model,
+  props::c25,
+  rng::Rng,
+};
+use bitcoin::{Amount, ScriptBuf, Transaction, TxOut, Witness};
+use ordinals::{Edict, Etching, Height, Rune, RuneId, Runestone, Terms};
 
 #[derive(Default)]
-pub struct RuneGen {}
+pub struct RuneGen {
+  /// names used so far (for duplicate-name etchings)
+  pub names: Vec<u128>,
+}
 
-pub fn rune_tx(_g: &mut Gen, _rng: &mut Rng, _avail: &mut Vec<Avail>, _model: &Model, _height: u32, _tx_index: u32) -> Option<Transaction> {
-  None
+fn is_p2tr(s: &ScriptBuf) -> bool {
+  let b = s.as_bytes();
+  b.len() == 34 && b[0] == 0x51 && b[1] == 0x20
+}
+
+fn gen_terms(rng: &mut Rng, height: u32) -> Terms {
+  let h = u64::from(height);
+  let around = |rng: &mut Rng| -> u64 {
+    match rng.below(8) {
+      0 => 0,
+      1 => h,
+      2 => h + 1,
+      3 => h.saturating_sub(1),
+      4 => h + rng.below(6),
+      5 => u64::MAX,
+      6 => u64::MAX - rng.below(3),
+      _ => h + rng.below(12),
+    }
+  };
+  let rel = |rng: &mut Rng| -> u64 {
+    match rng.below(6) {
+      0 => 0,
+      1 => 1,
+      2 => u64::MAX,
+      3 => u64::MAX - h,
+      _ => rng.below(10),
+    }
+  };
+  let opt = |rng: &mut Rng, f: &dyn Fn(&mut Rng) -> u64| if rng.chance(1, 2) { Some(f(rng)) } else { None };
+  Terms {
+    amount: if rng.chance(5, 6) { Some(*rng.pick(&[0u128, 1, 7, 1000, u128::from(u64::MAX)])) } else { None },
+    cap: if rng.chance(5, 6) { Some(*rng.pick(&[0u128, 1, 1, 2, 3, 5, u128::from(u32::MAX)])) } else { None },
+    height: (opt(rng, &around), opt(rng, &around)),
+    offset: (opt(rng, &rel), opt(rng, &rel)),
+  }
+}
+
+fn name_for(rng: &mut Rng, g: &Gen, height: u32) -> u128 {
+  let minimum = Rune::minimum_at_height(bitcoin::Network::Regtest, Height(height)).0;
+  match rng.below(12) {
+    // at / just below / just above the block's minimum
+    0 => minimum,
+    1 => minimum.saturating_sub(1 + rng.below(3) as u128),
+    2 => minimum + 1 + rng.below(1000) as u128,
+    // reserved range
+    3 => Rune::RESERVED + rng.below(5) as u128,
+    4 => u128::MAX - rng.below(3) as u128,
+    // short (locked) names
+    5 => rng.below(26 * 26) as u128,
+    // a name that already exists
+    6 | 7 if !g.runes.names.is_empty() => *rng.pick(&g.runes.names),
+    // ordinary 13+ letter names
+    _ => minimum + rng.below_u128(Rune::RESERVED - minimum),
+  }
+}
+
+pub fn rune_tx(g: &mut Gen, rng: &mut Rng, avail: &mut Vec<Avail>, model: &Model, height: u32, _tx_index: u32) -> Option<Transaction> {
+  // inputs: prefer runic outputs; for etchings one aged taproot output
+  let n_in = *rng.pick(&[1usize, 1, 2, 2, 3]);
+  let mut inputs = g.pick_inputs(rng, avail, n_in, false);
+  if inputs.is_empty() {
+    return None;
+  }
+  let want_etching = rng.chance(2, 5);
+  let mut commit_input: Option<usize> = None;
+  if want_etching {
+    // choose the kind of commitment input
+    let kind = rng.below(10);
+    let pred: Box<dyn Fn(&Avail) -> bool> = match kind {
+      0..=5 => Box::new(|a: &Avail| is_p2tr(&a.script) && !a.same_block && a.height + 5 <= height), // matured
+      6 | 7 => Box::new(|a: &Avail| is_p2tr(&a.script) && (a.same_block || a.height + 5 > height)),   // too young
+      8 => Box::new(|a: &Avail| !is_p2tr(&a.script) && !a.same_block && a.height + 5 <= height),     // not taproot
+      _ => Box::new(|_| false),                                                                         // none
+    };
+    if let Some(pos) = avail.iter().position(|a| pred(a)) {
+      inputs.push(avail.swap_remove(pos));
+      commit_input = Some(inputs.len() - 1);
+    } else if let Some(pos) = inputs.iter().position(|a| pred(a)) {
+      commit_input = Some(pos);
+    }
+  }
+  let total: u64 = inputs.iter().map(|a| a.value).sum();
+  let n_out = *rng.pick(&[1usize, 2, 2, 3, 4]);
+  let fee_mode = *rng.pick(&[0u64, 1, 1, 1, 3]);
+  let (values, _) = g.split_values(rng, total, n_out, fee_mode);
+  let mut output: Vec<TxOut> = values.iter().map(|v| TxOut { value: Amount::from_sat(*v), script_pubkey: g.script(rng) }).collect();
+  // OP_RETURN outputs that are not runestones, at random positions
+  if rng.chance(1, 5) {
+    let i = rng.usize(0, output.len());
+    output.insert(i, TxOut { value: Amount::ZERO, script_pubkey: ScriptBuf::from_bytes(vec![0x6a, 0x01, 0x21]) });
+  }
+  if rng.chance(1, 12) {
+    for o in output.iter_mut() {
+      o.script_pubkey = ScriptBuf::from_bytes(vec![0x6a]); // everything burns
+    }
+  }
+  let outputs_with_stone = output.len() as u32 + 1;
+
+  // ids this transaction can meaningfully name
+  let mut ids: Vec<RuneId> = Vec::new();
+  for a in &inputs {
+    if let Some(b) = model.runes.balances.get(&a.outpoint) {
+      ids.extend(b.keys().map(|(b, t)| RuneId { block: *b, tx: *t }));
+    }
+  }
+  let existing: Vec<RuneId> = model.runes.entries.keys().map(|(b, t)| RuneId { block: *b, tx: *t }).collect();
+
+  let stone_kind = rng.below(20);
+  if stone_kind == 0 {
+    // no runestone at all: default allocation of input runes
+    let tx = g.finish(inputs, output, Vec::new());
+    return Some(tx);
+  }
+  let mut stone = Runestone::default();
+  let mut witnesses: Vec<Witness> = vec![Witness::new(); inputs.len()];
+  if want_etching {
+    let rune = name_for(rng, g, height);
+    let named = rng.chance(5, 6);
+    let mut etching = Etching {
+      divisibility: if rng.chance(1, 2) { Some(rng.below(39) as u8) } else { None },
+      premine: if rng.chance(2, 3) { Some(*rng.pick(&[0u128, 1, 1000, 21_000_000, u128::from(u64::MAX)])) } else { None },
+      rune: named.then_some(Rune(rune)),
+      spacers: if rng.chance(1, 3) { Some(rng.next_u32() & 0xfff) } else { None },
+      symbol: if rng.chance(1, 3) { Some('$') } else { None },
+      terms: if rng.chance(2, 3) { Some(gen_terms(rng, height)) } else { None },
+      turbo: rng.chance(1, 4),
+    };
+    while etching.supply().is_none() {
+      etching.premine = etching.premine.map(|p| p / 2);
+      if let Some(t) = etching.terms.as_mut() {
+        t.amount = t.amount.map(|a| a / 2);
+      }
+    }
+    stone.etching = Some(etching);
+    if named && let Some(ci) = commit_input {
+      // tapscript pushing the commitment; sometimes a wrong one
+      let mut commitment = Rune(rune).commitment();
+      if rng.chance(1, 10) {
+        commitment.push(1);
+      }
+      let mut script = Vec::new();
+      crate::gen_insc::push(&mut script, &[3u8; 32]);
+      script.push(0xac);
+      crate::gen_insc::push(&mut script, &commitment);
+      let mut w = Witness::new();
+      w.push(&script);
+      w.push([0xc0u8; 33]);
+      // sometimes attach it to another input than the aged taproot one
+      let at = if rng.chance(1, 8) { rng.below(inputs.len() as u64) as usize } else { ci };
+      witnesses[at] = w;
+    }
+    if named && g.runes.names.len() < 32 {
+      g.runes.names.push(rune);
+    }
+  }
+  // mint
+  if rng.chance(1, 2) {
+    stone.mint = Some(match rng.below(8) {
+      0 => RuneId { block: u64::from(height), tx: rng.below(6) as u32 }, // etched in this block (before or after this tx)
+      1 => RuneId { block: u64::from(height) + 1, tx: 0 },
+      2 => RuneId { block: 1 + rng.below(u64::from(height) + 1), tx: rng.below(4) as u32 },
+      _ if !existing.is_empty() => *rng.pick(&existing),
+      _ => RuneId { block: 1, tx: 0 },
+    });
+  }
+  // edicts
+  let n_edicts = *rng.pick(&[0usize, 0, 1, 1, 2, 3, 6]);
+  for _ in 0..n_edicts {
+    let id = match rng.below(10) {
+      0 | 1 => RuneId { block: 0, tx: 0 },
+      2 if stone.mint.is_some() => stone.mint.unwrap(),
+      3 => RuneId { block: 1 + rng.below(50), tx: rng.below(3) as u32 },
+      _ if !ids.is_empty() => *rng.pick(&ids),
+      _ => RuneId { block: 0, tx: 0 },
+    };
+    let balance = inputs.iter().filter_map(|a| model.runes.balances.get(&a.outpoint)).filter_map(|b| b.get(&(id.block, id.tx))).sum::<u128>();
+    let amount = match rng.below(8) {
+      0 | 1 => 0,
+      2 => balance,
+      3 => balance.saturating_add(1),
+      4 => balance / 2,
+      5 => 1,
+      6 => u128::MAX,
+      _ => rng.below_u128(balance.saturating_add(2)),
+    };
+    let output = match rng.below(6) {
+      0 => outputs_with_stone, // split across all non-OP_RETURN outputs
+      _ => rng.below(u64::from(outputs_with_stone)) as u32,
+    };
+    stone.edicts.push(Edict { id, amount, output });
+  }
+  if rng.chance(1, 3) {
+    stone.pointer = Some(rng.below(u64::from(outputs_with_stone)) as u32);
+  }
+  // the runestone output, well-formed or damaged
+  let stone_script = if stone_kind <= 4 {
+    let mut ints = c25::integers_of(&stone);
+    for _ in 0..rng.usize(1, 2) {
+      c25::mutate(&mut ints, rng, outputs_with_stone);
+    }
+    let mut payload = Vec::new();
+    for i in &ints {
+      c25::leb(*i, &mut payload);
+    }
+    if rng.chance(1, 8) {
+      payload.push(0x80); // bad varint
+    }
+    let mut script = c25::script_from_payload(&payload, rng);
+    if rng.chance(1, 10) {
+      script.push(0x51); // opcode flaw
+    }
+    ScriptBuf::from_bytes(script)
+  } else {
+    stone.encipher()
+  };
+  let at = rng.usize(0, output.len());
+  output.insert(at, TxOut { value: Amount::ZERO, script_pubkey: stone_script });
+  Some(g.finish(inputs, output, witnesses))
 }
